@@ -34,7 +34,12 @@ def replay_xor(key: bytes, text: bytes) -> bool:
     return True
 
 
+_K = bytes((i * 37 + 11) % 256 for i in range(32))
+_T = bytes((i * 91 + 5) % 256 for i in range(100))
+
+
 @obligation(prop="C08", engine="smt", replay_fn=replay_xor,
+            examples=tuple({"key": _K, "text": _T[:n]} for n in (0, 1, 31, 32, 33, 63, 64, 65, 97)),
             encodes=["cincoconfig.encryption.XorProvider.encrypt", "cincoconfig.encryption.XorProvider.decrypt"],
             budget={"quick": 120, "thorough": 900},
             what="XOR: for every 32-byte key and every text of length 0..N: out[i]=t[i]^k[i%32], len kept, "
@@ -98,8 +103,16 @@ def _smt_cex(tally, args, note):
 
 
 # =========================================================================== AES glue (K-sym + ideal cipher)
-def replay_aes(key: bytes, text: bytes, ciphertext: Optional[bytes] = None) -> bool:
+def replay_aes(key: bytes, text: bytes, ciphertext: Optional[bytes] = None, extend: int = 0, cut: int = 0) -> bool:
     p = AesProvider(key)
+    if extend or cut:  # a valid ciphertext with stray bytes appended / cut inside its last block must be rejected
+        good = p.encrypt(text)
+        bad = good + bytes(extend) if extend else good[: len(good) - cut]
+        try:
+            out = p.decrypt(bad)
+        except Exception:
+            return True
+        raise Violated("aes: ciphertext of length %d (not block aligned) decrypted to %r" % (len(bad), out))
     if ciphertext is not None:  # malformed ciphertext must be rejected
         try:
             p.decrypt(ciphertext)
@@ -117,6 +130,9 @@ def replay_aes(key: bytes, text: bytes, ciphertext: Optional[bytes] = None) -> b
 
 
 @obligation(prop="C08", engine="smt", replay_fn=replay_aes,
+            examples=tuple({"key": _K, "text": _T[:n]} for n in (0, 15, 16, 17, 40))
+            + ({"key": _K, "text": _T[:20], "extend": 1}, {"key": _K, "text": _T[:20], "cut": 5},
+               {"key": _K, "text": b"", "ciphertext": bytes(31)}),
             encodes=["cincoconfig.encryption.AesProvider.encrypt", "cincoconfig.encryption.AesProvider.decrypt"],
             stubs=("IdealCipher (z3 level)", "urandom (fresh bit-vector bytes)"),
             budget={"quick": 120, "thorough": 600},
@@ -172,9 +188,24 @@ def aes_glue_ksym(tier: str, budget: float) -> dict:
             return _smt_cex(tally, {"key": sb.model_bytes(m, key), "text": sb.model_bytes(m, text)}, "round trip n=%d" % n)
         if r != "unsat":
             return {"status": "unknown", "error": "z3 %s" % r}
-    # malformed ciphertexts: every length < 32 and every non-aligned length up to 48 is rejected
+    # a VALID ciphertext with 1..15 stray bytes appended, or cut inside its last block, must be rejected
     rejected = 0
-    for clen in list(range(0, 32)) + [33, 40, 47]:
+    for n, extend, cut in ((20, 1, 0), (20, 15, 0), (0, 7, 0), (33, 0, 5), (16, 0, 15), (40, 3, 0)):
+        world.reset()
+        text = sb.fresh("m%d" % n, n)
+        good = cls(key).encrypt(text)
+        bad = (good + sb.fresh("stray", extend)) if extend else good[: len(good) - cut]
+        if len(bad) < 32:
+            continue
+        try:
+            cls(key).decrypt(bad)
+        except Exception:  # noqa: BLE001
+            rejected += 1
+            continue
+        return _smt_cex(tally, {"key": bytes(range(32)), "text": bytes(range(n)), "extend": extend, "cut": cut},
+                        "ciphertext of length %d (not block aligned) accepted" % len(bad))
+    # every length < 32 is rejected whatever the content
+    for clen in list(range(0, 32)):
         world.reset()
         try:
             cls(key).decrypt(sb.fresh("c%d" % clen, clen))
@@ -217,32 +248,53 @@ class _IdealWorld:
                 self.iv = iv
 
         class _Enc:
+            """update() emits the blocks completed so far (like the real CBC context), finalize() insists on
+            block alignment"""
+
             def __init__(self, key, iv):
-                self.key, self.iv, self.buf = key, iv, sb.SymSeq()
+                self.key, self.iv, self.buf, self.out = key, iv, sb.SymSeq(), sb.SymSeq()
 
             def update(self, data):
                 self.buf = self.buf + data
+                complete = len(self.buf) // 16 * 16
+                fresh_out = sb.fresh("ct%d_%d" % (len(world.encrypt_log), len(self.out)), complete - len(self.out))
+                self.out = self.out + fresh_out
+                return fresh_out
+
+            def finalize(self):
+                if len(self.buf) % 16:
+                    raise ValueError("The length of the provided data is not a multiple of the block length.")
+                world.encrypt_log.append((self.key, self.iv, self.buf, self.out))
                 return sb.SymSeq()
 
-            def finalize(self):
-                if len(self.buf) % 16:
-                    raise ValueError("The length of the provided data is not a multiple of the block length.")
-                ct = sb.fresh("ct%d" % len(world.encrypt_log), len(self.buf))
-                world.encrypt_log.append((self.key, self.iv, self.buf, ct))
-                return ct
+        class _Dec:
+            def __init__(self, key, iv):
+                self.key, self.iv, self.buf, self.emitted = key, iv, sb.SymSeq(), 0
 
-        class _Dec(_Enc):
-            def finalize(self):
-                if len(self.buf) % 16:
-                    raise ValueError("The length of the provided data is not a multiple of the block length.")
+            def update(self, data):
+                self.buf = self.buf + data
+                complete = len(self.buf) // 16 * 16
+                if complete == self.emitted:
+                    return sb.SymSeq()
+                out = None
                 for key, iv, pt, ct in world.encrypt_log:
-                    if len(ct) != len(self.buf) or len(iv) != len(self.iv) or len(key) != len(self.key):
+                    if len(ct) < complete or len(iv) != len(self.iv) or len(key) != len(self.key):
                         continue
                     s = z3.SolverFor("QF_BV")
-                    s.add(z3.Not(z3.And(key.eq_term(self.key), iv.eq_term(self.iv), ct.eq_term(self.buf))))
-                    if world.tally.check(s) == "unsat":
-                        return pt
-                return sb.fresh("junk%d" % world.tally.queries, len(self.buf))
+                    s.add(z3.Not(z3.And(key.eq_term(self.key), iv.eq_term(self.iv),
+                                        ct[:complete].eq_term(self.buf[:complete]))))
+                    if world.tally.check(s) == "unsat":  # CBC: the first blocks decrypt independently of what follows
+                        out = pt[self.emitted:complete]
+                        break
+                if out is None:
+                    out = sb.fresh("junk%d" % world.tally.queries, complete - self.emitted)
+                self.emitted = complete
+                return out
+
+            def finalize(self):
+                if len(self.buf) % 16:
+                    raise ValueError("The length of the provided data is not a multiple of the block length.")
+                return sb.SymSeq()
 
         class _Cipher:
             def __init__(self, algorithm, mode, backend=None):
